@@ -6,6 +6,7 @@ import (
 	"fmt"
 	"net/http"
 	"net/http/httptest"
+	"strings"
 	"sync/atomic"
 	"time"
 
@@ -698,13 +699,16 @@ func CtxCancelPending(res *fw.Result, seed int64) error {
 // writes must not count as signs of life).  The pending call must return with an error within a bounded
 // time and, once the link works again, new calls must be served.
 func SilentStall(d *fw.Driver, res *fw.Result, seed int64) error {
-	for i, mode := range []string{"no-pings", "poller"} {
-		const T = 150 * time.Millisecond
+	for i, mode := range []string{"no-pings", "poller", "big-write"} {
+		T := 150 * time.Millisecond
+		if mode == "big-write" {
+			T = time.Second // long enough for the 48 MiB request to be marshalled and its write to be under way
+		}
 		opts := []jsonrpc.Option{jsonrpc.WithTimeout(T)}
 		if mode == "no-pings" {
 			opts = append(opts, jsonrpc.WithPingInterval(0))
 		} else {
-			opts = append(opts, jsonrpc.WithPingInterval(30*time.Millisecond))
+			opts = append(opts, jsonrpc.WithPingInterval(T/5))
 		}
 		run, closer, cancel, err := newRunner(seed+int64(i)*7+3, 0, true, opts...)
 		if err != nil {
@@ -719,7 +723,11 @@ func SilentStall(d *fw.Driver, res *fw.Result, seed int64) error {
 		for w := 0; w < 3000 && run.E.H.C.Entered(base+1) == 0; w++ {
 			time.Sleep(time.Millisecond)
 		}
-		run.E.PX.Cut(0, "blackhole")
+		if mode == "big-write" {
+			run.E.PX.Cut(0, "stall") // silent and no longer reading: writes run into full buffers
+		} else {
+			run.E.PX.Cut(0, "blackhole")
+		}
 		stop := make(chan struct{})
 		if mode == "poller" {
 			go func() {
@@ -737,7 +745,30 @@ func SilentStall(d *fw.Driver, res *fw.Result, seed int64) error {
 				}
 			}()
 		}
+		var big chan error
+		if mode == "big-write" {
+			// a request far larger than the socket buffers, issued on the silent link: the connection loop is
+			// then inside the write when the silence has to be noticed
+			big = make(chan error, 1)
+			go func() {
+				cctx, cc := context.WithTimeout(run.ctx, 20*time.Second)
+				defer cc()
+				_, err := run.CL.Put(cctx, base+2, strings.Repeat("w", 48<<20))
+				big <- err
+			}()
+		}
 		bound := 5*T + 500*time.Millisecond
+		if big != nil {
+			bound += 2 * time.Second // marshalling and buffering 48 MiB takes a moment
+			select {
+			case err := <-big:
+				if err == nil {
+					res.Add(fw.Finding{Kind: "monitor", Signature: sig + " big call succeeded", Detail: "a 48 MiB call issued on a silent link returned a result", Case: c})
+				}
+			case <-time.After(bound):
+				res.Add(fw.Finding{Kind: "monitor", Signature: sig + " call being written never returns", Detail: fmt.Sprintf("a call whose 48 MiB request was being written when the peer had fallen silent had not returned %v later (timeout %v): nothing closes the connection while the connection loop is inside the write", bound, T), Case: c})
+			}
+		}
 		if !pending.Wait(bound) {
 			res.Add(fw.Finding{Kind: "monitor", Signature: sig + " pending call never returns", Detail: fmt.Sprintf("a call pending when the peer fell silent had not returned %v later (timeout %v): the stall is not noticed", bound, T), Case: c})
 		} else if pending.Err == nil {
